@@ -20,6 +20,7 @@ DOC = {
  "C18.R1": "election: every use of the candidate vector (and of iterators derived from it) is in the order-insensitive allow-list; any positional / first-match access is reported",
  "C18.R2": "every call of candidates_for_peer passes the constant authenticated_only = true; check_candidate pushes at most the caller's own id",
  "C18.R3": "commit: every path from the Some(election) edge reaches the loop that stops the losers (before any early return); authenticated callback on the survives edge; ready callback on the is_elected edge; the session stops itself when not elected",
+ "C18.R5": "check_session: the compatibility answer from the authenticated topology (and every direct Duplicate/This/Other answer) is dominated by the true edge of `matching registrations is empty`; a unique registration goes to check_candidate",
  "C18.R4": "direction by comparing the peer name with this node's name (both parameters); nonce minimum over Some nonces; zero nonce maps to None via NonZeroU64::new",
 }
 
@@ -180,9 +181,46 @@ def r4(run, db):
     run.check(good, "zero-nonce-is-none", "a zero (legacy) nonce is stored as None via NonZeroU64::new", "legacy zero nonce not mapped to None", rs.where())
 
 
+def r5(run, db):
+    """check_session: the read-only compatibility answer (computed from the authenticated topology without knowing who asks)
+    is given only to callers with *no* registration.  A caller that is registered -- uniquely (check_candidate) or ambiguously
+    (repeated / legacy nonce) -- must never be answered from a candidate set that may contain itself: an unauthenticated
+    registration with the same name and nonce would make an authenticated connection see itself as its own competitor and
+    stand down (C18-3: veto by an unauthenticated connection)."""
+    f = run.need(db.fn("ractor_cluster::node::NodeServerState::check_session"), "NodeServerState::check_session")
+    run.saw(len(f.blocks), f)
+    # the vector of registrations matching (name, nonce): collected from node_sessions
+    emp = []
+    for c in f.calls():
+        if c.matches(r"Vec::<T, A>::is_empty$|\[T\]>::is_empty$"):
+            roots = f.origins(c.args[0], through=lambda cc: 0 if cc.matches(r"Deref>::deref$|Vec::<T, A>::as_slice$") else None)
+            if roots and all(r["k"] == "call" and r["call"].matches(r"Iterator::collect$") for r in roots):
+                emp.append(c)
+    run.check(len(emp) == 1, "registration-emptiness-test", "check_session tests whether the caller has any registration", "check_session has %d emptiness tests of the matching-registration vector" % len(emp), f.where())
+    cand = [c for c in f.calls() if c.callee and c.callee.endswith("::candidates_for_peer")]
+    run.anchor("compatibility-path topology reads", len(cand), 1, f.where())
+    if emp:
+        te = true_edge(f, emp[0])
+        for c in cand:
+            run.check(te is not None and f.edge_dominates(te, c.site), "compat-only-for-unregistered@cand", "the authenticated topology is consulted only when the caller has no registration",
+                      "check_session answers a *registered* caller (ambiguous nonce) from the authenticated candidate set, which can contain the caller itself: an unauthenticated duplicate registration makes an authenticated connection stand down", c.where())
+        n = 0
+        for site, st in f.aggregates(adt="SessionCheckReply"):
+            v = st["rv"].get("variant")
+            if v == "NoOtherConnection":
+                continue
+            n += 1
+            run.check(te is not None and f.edge_dominates(te, site), "compat-only-for-unregistered@%s" % v, "%s is answered directly only to unregistered callers" % v,
+                      "check_session can answer %s to a registered caller without identifying it" % v, f.where(st.get("l")))
+        run.anchor("direct non-neutral answers", n, 3, f.where())
+    # a unique registration is delegated to check_candidate
+    cc = [c for c in f.calls() if c.callee and c.callee.endswith("::check_candidate")]
+    run.check(len(cc) == 1, "unique->check_candidate", "a uniquely identified caller is judged by check_candidate", "check_candidate calls: %d" % len(cc), f.where())
+
+
 Q = ["rc"]
 TH = ["rc", "rcatr"]
-RULES = [{"id": "C18.R%d" % i, "fn": f, "quick": Q, "thorough": TH} for i, f in enumerate([r1, r2, r3, r4], 1)]
+RULES = [{"id": "C18.R%d" % i, "fn": f, "quick": Q, "thorough": TH} for i, f in enumerate([r1, r2, r3, r4, r5], 1)]
 from .positive import control
 RULES.append({"id": "C18.P", "fn": control('positional'), "quick": ["pos"], "thorough": ["pos"]})
 DOC["C18.P"] = 'positive control: planted positional/first-match election must be reported by the order-sensitivity detector'
